@@ -553,3 +553,95 @@ func TestVerifHook(t *testing.T) {
 		}
 	}
 }
+
+/*
+	C19 probe: this test runs in a child process whose configuration file was generated by the
+	check (XDG_CONFIG_HOME).  If start-up accepted the file, it lives through a first fetch, a
+	first render, a first page load with movement, a first external open and a first feed, and
+	reports each step.  A crash of the process is seen by the parent.
+*/
+func TestVerifConfigProbe(t *testing.T) {
+	out := verifkit.Out()
+	defer out.Close()
+	split := func(s string) []int {
+		parts := strings.Split(s, ";")
+		ints := make([]int, len(parts))
+		for i, p := range parts {
+			n := 0
+			if _, err := fmt.Sscanf(p, "%d", &n); err != nil || fmt.Sprint(n) != p {
+				n = -1
+			}
+			ints[i] = n
+		}
+		return ints
+	}
+	c := config.Parsed.Style.Colors
+	out.Emit(verifkit.M{"ev": "start", "colours": [][]int{split(c.Primary), split(c.Error), split(c.Highlight), split(c.Code)},
+		"hook": config.Parsed.Media.Hook, "context": config.Parsed.Network.Context, "cache": config.Parsed.Network.CacheSize,
+		"timeout_ms": config.Parsed.Network.Timeout.Milliseconds()})
+	sim := verifsim.Get()
+	defer sim.Cleanup()
+	w := verifBuildWorld(sim)
+	config.Parsed.Feeds = map[string][]string{"f": {w.h.URL("/users/alice"), w.h.URL("/users/bob")}}
+	step := func(name string, f func() string) {
+		out.Emit(verifkit.M{"ev": "step_begin", "step": name})
+		outcome := "ok"
+		panicked, what := verifkit.Try(func() { outcome = f() })
+		if panicked {
+			outcome = "panic"
+		}
+		out.Emit(verifkit.M{"ev": "step", "step": name, "outcome": outcome, "what": what})
+	}
+	var item pub.Tangible
+	step("fetch", func() string {
+		item = pub.NewTangible(w.h.URL("/users/alice"), nil)
+		if _, failed := item.(*pub.Failure); failed {
+			return "error"
+		}
+		return "ok"
+	})
+	step("render", func() string {
+		text := item.String(80) + "\n" + item.Preview(40) + "\n" + item.Name()
+		out.Emit(verifkit.M{"ev": "out", "kind": "config-render", "chk": []string{"noctl", "neutral"}, "w": 80, "h": 0, "toks": verifkit.Toks(text, nil), "expect": verifkit.M{}, "ops": []string{}, "src": "config probe"})
+		return "ok"
+	})
+	v := verifNewSession(w, out, 1, false)
+	step("load", func() string {
+		if err := v.s.Subcommand("open", w.h.URL("/users/alice")); err != nil {
+			return "error"
+		}
+		if !v.settle(15 * time.Second) {
+			return "hang"
+		}
+		for _, b := range []byte("jjk gh") {
+			v.s.Update(b)
+			if !v.settle(15 * time.Second) {
+				return "hang"
+			}
+		}
+		return "ok"
+	})
+	step("open", func() string {
+		v.s.Update('l')
+		v.s.Update('g')
+		v.s.Update('p')
+		if !v.settle(15 * time.Second) {
+			return "hang"
+		}
+		return "ok"
+	})
+	step("feed", func() string {
+		for _, b := range []byte(":feed f\r") {
+			v.s.Update(b)
+		}
+		if !v.settle(15 * time.Second) {
+			return "hang"
+		}
+		v.s.Update('j')
+		if !v.settle(15 * time.Second) {
+			return "hang"
+		}
+		return "ok"
+	})
+	out.Emit(verifkit.M{"ev": "done"})
+}
